@@ -339,6 +339,28 @@ where
         I: CancelWalk,
         F: FnOnce(S::Substituent<'_>) -> Option<TreeResidue<()>>,
     {
+        #[cfg(wax_verif)]
+        crate::verif::emit(|| crate::verif::Event::LayerIn {
+            input: match self {
+                Separation::Filtrate(_) => 'F',
+                Separation::Residue(ref residue) => match residue.get() {
+                    TreeResidue::Node(_) => 'N',
+                    TreeResidue::Tree(_) => 'T',
+                },
+            },
+        });
+        #[cfg(wax_verif)]
+        let f = |substituent: S::Substituent<'_>| {
+            let verdict = f(substituent);
+            crate::verif::emit(|| crate::verif::Event::LayerVerdict {
+                verdict: match verdict {
+                    None => '-',
+                    Some(TreeResidue::Node(())) => 'N',
+                    Some(TreeResidue::Tree(())) => 'T',
+                },
+            });
+            verdict
+        };
         match f(self.substituent()) {
             Some(TreeResidue::Tree(())) => self.filter_map_tree(cancellation, From::from),
             Some(TreeResidue::Node(())) => self.filter_map_node(From::from),
